@@ -5,10 +5,12 @@ use serde_json::{json, Value};
 pub mod c01;
 pub mod c02;
 pub mod c03;
+pub mod c07;
+pub mod c18;
 pub mod ik;
 
 pub fn registry() -> Vec<Prop> {
-    vec![c01::prop(), c02::prop(), c03::prop()]
+    vec![c01::prop(), c02::prop(), c03::prop(), c07::prop(), c18::prop()]
 }
 
 pub fn child(_args: &[String]) -> i32 {
